@@ -464,12 +464,16 @@ func main() {
 					if len(fd.Body.List) > 0 {
 						if is, ok := fd.Body.List[0].(*ast.IfStmt); ok {
 							c := exprStr(is.Cond)
-							if strings.Contains(c, ".err") {
+							if strings.Contains(c, ".err") || strings.Contains(c, ".done") {
 								guarded = true
 							}
 						}
 					}
 					ast.Inspect(fd.Body, func(nd ast.Node) bool {
+						// a completed Close is recorded in the flag `done` (not in the error field)
+						if is, ok := nd.(*ast.IfStmt); ok && strings.Contains(exprStr(is.Cond), ".done") {
+							sent = append(sent, "done")
+						}
 						if be, ok := nd.(*ast.BinaryExpr); ok && (be.Op == token.EQL || be.Op == token.NEQ) {
 							l, r := exprStr(be.X), exprStr(be.Y)
 							if strings.HasSuffix(l, ".err") && r != "nil" {
